@@ -310,6 +310,8 @@ def main():
                 broken.append({"kind": "broken-correspondence", "detail": "harness build failed (%s)" % v, "error": out[-800:]})
                 continue
             extra_env = dict(ENV, VERIF_RUNDIR=rundir)
+            if touched:
+                extra_env["VERIF_ESCALATED"] = "1"
             for sd, label in [(seed, v)] + [(es, "%s_s%d" % (v, i + 2)) for i, es in enumerate(extra_seeds)]:
                 rc, out = sh([binp, prop, tier, str(sd), rundir, label], cwd=ROOT, timeout=3000, env=extra_env)
                 if rc != 0:
